@@ -128,6 +128,11 @@ static std::vector<Fault> enumerate(const std::vector<char> &b, int level, uint6
   for (long o = phase; o < L; o += step) {
     const unsigned char v = (unsigned char)b[o];
     for (int val : {0x00, 0xFF, (v + 1) & 0xFF, (v - 1) & 0xFF, v ^ 0x80, v ^ 0x01}) if (val != v) fs.push_back({1, o, val, 0});
+    // field-shaped values: the zero-run token of the rANS table ((run << 2) | 3, run 0..9) and a nibble equal to a small dimension count (packed 4-bit fields)
+    if (level >= 1 || L <= 400) {
+      for (int run = 0; run < 10; ++run) { const int val = (run << 2) | 3; if (val != v) fs.push_back({1, o, val, 0}); }
+      for (int d : {2, 3, 4}) { const int hi = (v & 0x0F) | (d << 4), lo = (v & 0xF0) | d; if (hi != v) fs.push_back({1, o, hi, 0}); if (lo != v) fs.push_back({1, o, lo, 0}); }
+    }
     if (level >= 1 || o % 2 == 0) for (long long w : {0ll, 0x7FFFFFFFll, 0xFFFFFFFFll, 0x80000000ll}) fs.push_back({2, o, w, 0});
     for (int p = 0; p < 10; ++p) if (level >= 1 || (o + p) % 3 == 0 || (p >= 5 && o < 64)) fs.push_back({3, o, p, 0});
   }
@@ -351,13 +356,14 @@ static std::vector<char> assemble_lkd(const vrt::J &row) {
   b.Encode("DRACO", 5);
   b.Encode((uint8_t)2); b.Encode((uint8_t)2); b.Encode((uint8_t)0); b.Encode((uint8_t)1); b.Encode((uint16_t)0);
   const long n = (long)row["n"].n, hp = (long)row["hp"].n, op = (long)row["op"].n, ip = (long)row["ip"].n, level = (long)row["level"].n;
-  b.Encode((int32_t)hp);
+  const bool neg = row["neg"].n != 0;
+  b.Encode(neg ? (uint32_t)0x80000000u : (uint32_t)hp);
   b.Encode((uint8_t)1);
   EncodeVarint<uint32_t>(1, &b);
   b.Encode((uint8_t)0); b.Encode((uint8_t)6); b.Encode((uint8_t)3); b.Encode((uint8_t)0); EncodeVarint<uint32_t>(0, &b);
   b.Encode((uint8_t)1);
   b.Encode((uint8_t)level);
-  b.Encode((uint32_t)(row["hop"].n ? (1u << 27) : (uint32_t)op));
+  b.Encode(neg ? (uint32_t)0x80000000u : (uint32_t)(row["hop"].n ? (1u << 27) : (uint32_t)op));
   std::vector<std::array<uint32_t, 3>> pts;
   for (long i = 0; i < n; ++i) pts.push_back({(uint32_t)(37 * i + 5) % 1000, (uint32_t)(911 * i + 3) % 1000, (uint32_t)(i * i * 17 + 1) % 1000});
   const size_t at = b.size();
